@@ -672,7 +672,7 @@ def run_unit(u, tier, known):
     res = {"unit": u.uid, "kind": u.kind, "functions": u.functions, "mode": u.mode,
            "backend": ("goto-instrument --dfcc + " if u.mode == "dfcc" else "assume/assert harness + ")
            + "cbmc/" + (u.backend or "minisat"), "what": u.what}
-    kf = [k for k in known if k.get("unit") == u.uid and k.get("status") == "open"]
+    kf = [k for k in known if (k.get("unit") == u.uid or u.uid in k.get("units", [])) and k.get("status") == "open"]
     try:
         excl = [k["exclude_define"] for k in kf if k.get("exclude_define")]
         udir, gb, log, itext = build_unit(u, tier, extra_defines=excl)
@@ -727,21 +727,27 @@ def run_unit(u, tier, known):
                                     "under its contract (dead step => vacuous proof): %s"
                                     % (len(cv["unreachable"]), "; ".join(cv["unreachable"][:4])))
             res["verdict"] = "discharged"
-        # --- known findings of this unit: confirm they are still present (without the exclusion)
+        # --- known findings of this unit.  Run A (above) had every listed witness region excluded and must be
+        # clean.  Run B has NO exclusion: each listed finding is "present" if its obligation fails there; a failing
+        # obligation that no listed finding (or its stated cascade) accounts for is a VIOLATION.
         res["known"] = []
-        for k in kf:
-            if not k.get("exclude_define"):
-                continue
-            udir2, gb2, _, _ = build_unit(u, tier, extra_defines=[e for e in excl if e != k["exclude_define"]],
-                                          tag="_kf_" + k["id"])
+        kfx = [k for k in kf if k.get("exclude_define")]
+        if kfx:
+            udir2, gb2, _, _ = build_unit(u, tier, extra_defines=[], tag="_kf")
             r2, m2, s2, secs2, _ = run_cbmc(u, gb2, udir2, tier)
-            _, f2, _, _, _ = classify(r2)
-            pat = re.compile(k["obligation"])
-            hit = [r for r in f2 if pat.search(r["property"] + " " + r["description"])]
-            res["known"].append({"id": k["id"], "present": bool(hit), "text": k["text"],
-                                 "failing": [r["property"] for r in hit][:5]})
-            extra = [r for r in f2 if not pat.search(r["property"] + " " + r["description"])
-                     and not (k.get("cascade") and re.search(k["cascade"], r["property"] + " " + r["description"]))]
+            _, f2, _, _, _ = classify(r2, u.entry)
+            accounted = set()
+            for k in kfx:
+                pat = re.compile(k["obligation"])
+                casc = re.compile(k["cascade"]) if k.get("cascade") else None
+                hit = [r for r in f2 if pat.search(r["property"] + " " + r["description"])]
+                for r in f2:
+                    t_ = r["property"] + " " + r["description"]
+                    if pat.search(t_) or (casc and hit and casc.search(t_)):
+                        accounted.add(r["property"])
+                res["known"].append({"id": k["id"], "present": bool(hit), "text": k["text"],
+                                     "failing": [r["property"] for r in hit][:5]})
+            extra = [r for r in f2 if r["property"] not in accounted]
             if extra and res["verdict"] == "discharged":
                 res["verdict"] = "violation"
                 res["failed"] = [{"property": r["property"], "description": r["description"],
